@@ -315,3 +315,60 @@ to_multi_int_contract!(c11_multi_int_u32_i32_n0, U32, u32, i32, [], 0);
 to_multi_int_contract!(c11_multi_int_i32_i32_n0, I32, i32, i32, [], 0);
 to_multi_int_contract!(c11_multi_int_u64_u64_n0, U64, u64, u64, [], 0);
 to_multi_int_contract!(c11_multi_int_i64_i64_n0, I64, i64, i64, [], 0);
+
+// one stored item, any stored number: every source variant x every target type (u16 -> u8 is above)
+to_multi_int_contract!(c11_multi_int_u8_u8_n1, U8, u8, u8, [a], 1);
+to_multi_int_contract!(c11_multi_int_u8_i8_n1, U8, u8, i8, [a], 1);
+to_multi_int_contract!(c11_multi_int_u8_u16_n1, U8, u8, u16, [a], 1);
+to_multi_int_contract!(c11_multi_int_u8_i16_n1, U8, u8, i16, [a], 1);
+to_multi_int_contract!(c11_multi_int_u8_u32_n1, U8, u8, u32, [a], 1);
+to_multi_int_contract!(c11_multi_int_u8_i32_n1, U8, u8, i32, [a], 1);
+to_multi_int_contract!(c11_multi_int_u8_u64_n1, U8, u8, u64, [a], 1);
+to_multi_int_contract!(c11_multi_int_u8_i64_n1, U8, u8, i64, [a], 1);
+to_multi_int_contract!(c11_multi_int_u16_i8_n1, U16, u16, i8, [a], 1);
+to_multi_int_contract!(c11_multi_int_u16_u16_n1, U16, u16, u16, [a], 1);
+to_multi_int_contract!(c11_multi_int_u16_i16_n1, U16, u16, i16, [a], 1);
+to_multi_int_contract!(c11_multi_int_u16_u32_n1, U16, u16, u32, [a], 1);
+to_multi_int_contract!(c11_multi_int_u16_i32_n1, U16, u16, i32, [a], 1);
+to_multi_int_contract!(c11_multi_int_u16_u64_n1, U16, u16, u64, [a], 1);
+to_multi_int_contract!(c11_multi_int_u16_i64_n1, U16, u16, i64, [a], 1);
+to_multi_int_contract!(c11_multi_int_i16_u8_n1, I16, i16, u8, [a], 1);
+to_multi_int_contract!(c11_multi_int_i16_i8_n1, I16, i16, i8, [a], 1);
+to_multi_int_contract!(c11_multi_int_i16_u16_n1, I16, i16, u16, [a], 1);
+to_multi_int_contract!(c11_multi_int_i16_i16_n1, I16, i16, i16, [a], 1);
+to_multi_int_contract!(c11_multi_int_i16_u32_n1, I16, i16, u32, [a], 1);
+to_multi_int_contract!(c11_multi_int_i16_i32_n1, I16, i16, i32, [a], 1);
+to_multi_int_contract!(c11_multi_int_i16_u64_n1, I16, i16, u64, [a], 1);
+to_multi_int_contract!(c11_multi_int_i16_i64_n1, I16, i16, i64, [a], 1);
+to_multi_int_contract!(c11_multi_int_u32_u8_n1, U32, u32, u8, [a], 1);
+to_multi_int_contract!(c11_multi_int_u32_i8_n1, U32, u32, i8, [a], 1);
+to_multi_int_contract!(c11_multi_int_u32_u16_n1, U32, u32, u16, [a], 1);
+to_multi_int_contract!(c11_multi_int_u32_i16_n1, U32, u32, i16, [a], 1);
+to_multi_int_contract!(c11_multi_int_u32_u32_n1, U32, u32, u32, [a], 1);
+to_multi_int_contract!(c11_multi_int_u32_i32_n1, U32, u32, i32, [a], 1);
+to_multi_int_contract!(c11_multi_int_u32_u64_n1, U32, u32, u64, [a], 1);
+to_multi_int_contract!(c11_multi_int_u32_i64_n1, U32, u32, i64, [a], 1);
+to_multi_int_contract!(c11_multi_int_i32_u8_n1, I32, i32, u8, [a], 1);
+to_multi_int_contract!(c11_multi_int_i32_i8_n1, I32, i32, i8, [a], 1);
+to_multi_int_contract!(c11_multi_int_i32_u16_n1, I32, i32, u16, [a], 1);
+to_multi_int_contract!(c11_multi_int_i32_i16_n1, I32, i32, i16, [a], 1);
+to_multi_int_contract!(c11_multi_int_i32_u32_n1, I32, i32, u32, [a], 1);
+to_multi_int_contract!(c11_multi_int_i32_i32_n1, I32, i32, i32, [a], 1);
+to_multi_int_contract!(c11_multi_int_i32_u64_n1, I32, i32, u64, [a], 1);
+to_multi_int_contract!(c11_multi_int_i32_i64_n1, I32, i32, i64, [a], 1);
+to_multi_int_contract!(c11_multi_int_u64_u8_n1, U64, u64, u8, [a], 1);
+to_multi_int_contract!(c11_multi_int_u64_i8_n1, U64, u64, i8, [a], 1);
+to_multi_int_contract!(c11_multi_int_u64_u16_n1, U64, u64, u16, [a], 1);
+to_multi_int_contract!(c11_multi_int_u64_i16_n1, U64, u64, i16, [a], 1);
+to_multi_int_contract!(c11_multi_int_u64_u32_n1, U64, u64, u32, [a], 1);
+to_multi_int_contract!(c11_multi_int_u64_i32_n1, U64, u64, i32, [a], 1);
+to_multi_int_contract!(c11_multi_int_u64_u64_n1, U64, u64, u64, [a], 1);
+to_multi_int_contract!(c11_multi_int_u64_i64_n1, U64, u64, i64, [a], 1);
+to_multi_int_contract!(c11_multi_int_i64_u8_n1, I64, i64, u8, [a], 1);
+to_multi_int_contract!(c11_multi_int_i64_i8_n1, I64, i64, i8, [a], 1);
+to_multi_int_contract!(c11_multi_int_i64_u16_n1, I64, i64, u16, [a], 1);
+to_multi_int_contract!(c11_multi_int_i64_i16_n1, I64, i64, i16, [a], 1);
+to_multi_int_contract!(c11_multi_int_i64_u32_n1, I64, i64, u32, [a], 1);
+to_multi_int_contract!(c11_multi_int_i64_i32_n1, I64, i64, i32, [a], 1);
+to_multi_int_contract!(c11_multi_int_i64_u64_n1, I64, i64, u64, [a], 1);
+to_multi_int_contract!(c11_multi_int_i64_i64_n1, I64, i64, i64, [a], 1);
